@@ -143,7 +143,9 @@ def rnd_data(rng, btype):
     return ("UNK", rnd_bytes(rng, 60))
 
 
-UNKNOWN_TYPES = [2, 3, 4, 5, 8, 9, 11, 12, 23, 24, 191, 192, 255, 256, 65536, 2 ** 32, 2 ** 64 - 1]
+UNKNOWN_TYPES = [2, 3, 4, 5, 8, 9, 11, 12, 23, 24, 191, 192, 255, 256, 65536, 2 ** 32, 2 ** 64 - 1,
+                 # aliases of the known types 1, 6, 7, 10 under truncation to 8 / 16 / 32 bits
+                 257, 262, 263, 266, 65537, 65542, 65543, 65546, 2 ** 32 + 1, 2 ** 32 + 6, 2 ** 32 + 7, 2 ** 32 + 10, 2 ** 64 - 250, 2 ** 64 - 249, 2 ** 64 - 246]
 
 
 def rnd_canonical(rng, btype=None, num=None, crc_kind=None):
